@@ -1113,11 +1113,7 @@ func (e *Env) ownTerms(r Value, actuals []Value, oldMap func(string, Sort) *Term
 			ov = nv.Ref.Subst(oldMap)
 		}
 		alts := []*Term{Eq(nv.Ref, ov), Eq(nv.Ref, IntLit(0)), And(Ge(nv.Ref, preNextRef), Lt(nv.Ref, e.nextRef()))}
-		for _, a := range actuals {
-			if a.K == VSlice && !a.ElemU {
-				alts = append(alts, Eq(nv.Ref, a.Ref))
-			}
-		}
+		_ = actuals // no function adopts an argument's array into a field
 		out = append(out, Or(alts...))
 	})
 	return out
